@@ -1,0 +1,45 @@
+/* Verification hooks.  Everything in this file is inert unless MUSCLE_VERIF_HOOKS is defined. */
+#ifndef MuscleVerifHooks_h
+#define MuscleVerifHooks_h
+
+#ifdef MUSCLE_VERIF_HOOKS
+
+namespace muscle { namespace verif {
+
+/** Kinds of yield-point.  A test harness may install a function that is called at each of these points; it may block the calling thread. */
+enum {
+   YIELD_MUTEX_LOCK = 1,   /**< about to lock a Mutex (obj = the Mutex) */
+   YIELD_MUTEX_TRYLOCKED,  /**< a TryLock() just succeeded (obj = the Mutex) */
+   YIELD_MUTEX_UNLOCK,     /**< just unlocked a Mutex (obj = the Mutex) */
+   YIELD_WC_WAIT,          /**< about to Wait() on a WaitCondition (obj = the WaitCondition, arg = 1 if the wait has a deadline); a return value of 1 means "act as if the deadline passed" */
+   YIELD_WC_NOTIFY,        /**< just called Notify() on a WaitCondition (obj = the WaitCondition) */
+   YIELD_ATOMIC,           /**< about to perform an atomic operation (obj = the AtomicCounter, arg = +1/-1/0) */
+   YIELD_THREAD_CREATED,   /**< the calling thread has just spawned a Thread's internal thread (obj = the Thread) */
+   YIELD_THREAD_BEGIN,     /**< first thing executed by a Thread's internal thread (obj = the Thread) */
+   YIELD_THREAD_END,       /**< last thing executed by a Thread's internal thread (obj = the Thread) */
+   YIELD_THREAD_JOIN,      /**< about to join a Thread's internal thread (obj = the Thread) */
+   YIELD_SOCK_SIGNAL,      /**< just sent a wakeup-byte (obj = the receiving side's ThreadSpecificData) */
+   YIELD_SOCK_DRAIN,       /**< just drained the wakeup-bytes (obj = the draining side's ThreadSpecificData) */
+   YIELD_SOCK_WAIT,        /**< about to block waiting for a wakeup-byte (obj = own ThreadSpecificData, arg = 1 if there is a deadline); a return value of 1 means "act as if the deadline passed" */
+   YIELD_SOCK_CLOSE        /**< the internal thread closed its socket (obj = the owner side's ThreadSpecificData) */
+};
+
+typedef int  (*YieldFunc)(int kind, const void * obj, long arg);
+typedef void (*EventFunc)(const char * name, const void * obj, long a0, long a1, long a2, long a3);
+
+inline YieldFunc & YieldFuncRef() {static YieldFunc f = 0; return f;}
+inline EventFunc & EventFuncRef() {static EventFunc f = 0; return f;}
+
+}}  // end namespace muscle::verif
+
+# define MUSCLE_VERIF_YIELD(kind, obj, arg) (muscle::verif::YieldFuncRef() ? muscle::verif::YieldFuncRef()((kind), (obj), (arg)) : 0)
+# define MUSCLE_VERIF_EVENT(name, obj, a0, a1, a2, a3) do {if (muscle::verif::EventFuncRef()) muscle::verif::EventFuncRef()((name), (obj), (long)(a0), (long)(a1), (long)(a2), (long)(a3));} while(0)
+
+#else
+
+# define MUSCLE_VERIF_YIELD(kind, obj, arg) (0)
+# define MUSCLE_VERIF_EVENT(name, obj, a0, a1, a2, a3) do {} while(0)
+
+#endif
+
+#endif
